@@ -73,6 +73,65 @@ def rkth_v21(spec) -> bytes:
     return hs[0] if len(hs) == 1 else h(b"".join(hs)).digest()
 
 
+def cert_v21_reference(spec, cb: bytes):
+    """Python reference for a certificate block v2.1 (format description; independent of SPSDK's classes, of the Lean model
+    and of the ROM driver): the chain  configured root[used] -> (ISK certificate) .  Returns a list of failure triples.
+      * the root key record names the CONFIGURED root index and carries the configured root's public key,
+      * that key hashes to table[index] (root sets of more than one key),
+      * with an ISK certificate: its signature verifies under the CARRIED root key over record || ISK-up-to-signature,
+        and the certificate holds the configured ISK public key (the image signature under it is the ROM's obligation)."""
+    from cryptography import x509
+    from cryptography.exceptions import InvalidSignature
+    from cryptography.hazmat.primitives import hashes
+    from cryptography.hazmat.primitives.asymmetric import ec, utils
+    out = []
+    cv, n, used = spec["curve"], spec["n"], spec["used"]
+    if len(cb) < 16 or cb[:4] != b"chdr":
+        return [("certificate block v2.1: header magic", cb[:4].hex(), b"chdr".hex())]
+    flags = struct.unpack_from("<I", cb, 12)[0]
+    ca, idx, count, code = bool(flags & 0x80000000), (flags >> 8) & 0xF, (flags >> 4) & 0xF, flags & 0xF
+    cs = {1: 32, 2: 48}.get(code)
+    if cs is None or cs != {256: 32, 384: 48}[cv] or count != n:
+        return [("certificate block v2.1: root key record announces another curve / number of root keys than configured",
+                 {"curve_code": code, "count": count}, {"curve": cv, "count": n})]
+    h = hashlib.sha256 if cs == 32 else hashlib.sha384
+    if idx != used:
+        out.append(("certificate block v2.1: the root key record names root index %d but the block was configured with (and, with an ISK, "
+                    "signed by) root index %d" % (idx, used), idx, used))
+    tbl_len = count * h().digest_size if count > 1 else 0
+    pub_off = 16 + tbl_len
+    root_pub = cb[pub_off:pub_off + 2 * cs]
+    want_pub = ecc_pub_raw(C1._file(C1.KC_ECC / f"ec_secp{cv}r1_cert{used}.pem"))
+    if root_pub != want_pub:
+        out.append(("certificate block v2.1: the root public key carried by the block is not the configured root key (index %d)" % used,
+                    root_pub.hex()[:48], want_pub.hex()[:48]))
+    if count > 1 and idx < count and cb[16 + idx * h().digest_size:16 + (idx + 1) * h().digest_size] != h(root_pub).digest():
+        out.append(("certificate block v2.1: the carried root key does not hash to the table entry the record names", idx, None))
+    if ca != (not spec["isk"]):
+        out.append(("certificate block v2.1: CA flag does not match the presence of an ISK certificate", ca, not spec["isk"]))
+    if spec["isk"] and not ca:
+        isk = pub_off + 2 * cs
+        if isk + 12 > len(cb):
+            return out + [("certificate block v2.1: ISK certificate missing", len(cb), None)]
+        sig_off, _, iflags = struct.unpack_from("<3I", cb, isk)
+        ics = {1: 32, 2: 48}.get(iflags & 0xF)
+        if ics is None or ics != {256: 32, 384: 48}[spec["isk"]]:
+            return out + [("certificate block v2.1: ISK curve", iflags & 0xF, spec["isk"])]
+        isk_pub = cb[isk + 12:isk + 12 + 2 * ics]
+        want_isk = ecc_pub_raw(C1._file(C1.KC_ECC / f"ec_secp{spec['isk']}r1_sign_cert.pem"))
+        if isk_pub != want_isk:
+            out.append(("certificate block v2.1: the ISK certificate does not hold the configured ISK public key", isk_pub.hex()[:48], want_isk.hex()[:48]))
+        sig = cb[isk + sig_off:isk + sig_off + 2 * cs]
+        curve, hh = (ec.SECP256R1(), hashes.SHA256()) if cs == 32 else (ec.SECP384R1(), hashes.SHA384())
+        try:
+            key = ec.EllipticCurvePublicNumbers(int.from_bytes(root_pub[:cs], "big"), int.from_bytes(root_pub[cs:], "big"), curve).public_key()
+            key.verify(utils.encode_dss_signature(int.from_bytes(sig[:cs], "big"), int.from_bytes(sig[cs:], "big")), cb[12:isk + sig_off], ec.ECDSA(hh))
+        except (InvalidSignature, ValueError):
+            out.append(("certificate block v2.1: the ISK certificate's signature does not verify under the root key the block carries "
+                        "(chain ISK -> root broken: a ROM fused for these root keys rejects the image)", {"record_index": idx}, {"signed_by_root": used}))
+    return out
+
+
 # ---------------------------------------------------------------------------------------------- discharging obligations
 def der_cert(blob: bytes):
     """a certificate table entry: DER certificate padded with < 4 zero bytes to a multiple of 4"""
@@ -242,6 +301,8 @@ def eval_case(case, row):
     if "cert" in case:
         cb = pyres(obj.cert_block.export)
         obs["cert"] = cb[1].hex() if cb[0] == "ok" else None
+        if case["cert"]["kind"] == "v21" and cb[0] == "ok":
+            fails.extend(cert_v21_reference(case["cert"], bytes(cb[1])))
     r = pyres(obj.export)
     alen = len(bytes.fromhex(case["app"]))
     if C1._has(mixins, "HmacMandatory") and alen + (-alen % 4) < 64:
@@ -275,17 +336,29 @@ def eval_case(case, row):
 
 
 ROWS = None
+# every quick run: cert block v2.1 WITH an ISK certificate, every signing root 0..n-1 of root sets of 2..4 keys, P-256 and P-384
+# (ISK curve alternating where the root curve allows both), plus the same root sets without ISK
+ISK_CHAIN_SPECS = [(cv, n, used, (256 if cv == 256 or (n + used) % 2 else 384)) for cv in (256, 384) for n in (2, 3, 4) for used in range(n)] + \
+                  [(cv, n, used, None) for cv in (256, 384) for n in (2, 4) for used in (n - 1,)]
 
 
 def _work(task):
     import logging
     logging.disable(logging.CRITICAL)
-    ri, seed, draws, thorough, flips = task
+    ri, seed, draws, thorough, flips = task[:5]
+    forced = list(task[5]) if len(task) > 5 else []
     row = ROWS[ri]
     rng = random.Random(seed)
     out = []
-    for d in range(draws):
+    for d in range(draws + len(forced)):
         case = C1.gen_case(rng, row, d + 8, thorough)   # payload length classes from 0x40 on (shorter ones: C01; HMAC images need 64 bytes)
+        if d >= draws:
+            # systematic chain cases: root set x signing root x ISK (see ISK_CHAIN_SPECS)
+            cv, n, used, isk = forced[d - draws]
+            ud = bytes(rng.getrandbits(8) for _ in range(rng.choice([0, 0, 16, 32]))).hex() if isk else ""
+            case["cert"] = {"kind": "v21", "curve": cv, "n": n, "used": used, "isk": isk, "udata": ud}
+            if case.get("digest") not in (None, "auto"):
+                case["digest"] = "auto"
         case["malformed"] = 0
         case["cfg_rt"] = False
         if case.get("ks", ["none"])[0] == "ks_empty":
@@ -328,10 +401,16 @@ def run(ck):
     for ri in prot:
         first_of_shape.setdefault((ROWS[ri][5], ROWS[ri][6]), ri)
     # quick: every protected row once, the first row of every mixin list 4 more times; bit flips on the first rows only
+    # the systematic root -> ISK -> image chain cases (ISK_CHAIN_SPECS): all of them on the first row of every cert-block-v2.1 mixin list
+    v21_first = [ri for ri in sorted(first_of_shape.values()) if C1._has(ROWS[ri][6], "CertBlockV21")]
+    chain_specs = {}
+    for k, ri in enumerate(v21_first):
+        chain_specs[ri] = ISK_CHAIN_SPECS if (k == 0 or not ck.quick) else ISK_CHAIN_SPECS[k % 3::3]
     tasks = []
     for ri in prot:
         extra = ck.budget(4, 8) if ri in first_of_shape.values() else 0
-        tasks.append((ri, ck.rng.getrandbits(64), draws + extra, not ck.quick, flips if (ri in first_of_shape.values() or not ck.quick) else 0))
+        tasks.append((ri, ck.rng.getrandbits(64), draws + extra, not ck.quick, flips if (ri in first_of_shape.values() or not ck.quick) else 0,
+                      chain_specs.get(ri, ())))
     s = ck.stream("rom_accepts", f"every protected row of the class table ({len(prot)} rows: CRC, RSA signed (+-HMAC, key store), ECC signed with manifest, encrypted) with the C01 "
                   "option generator (payload lengths, TrustZone, relocation tables, key store, IVs, RSA chains depth 1-3 / 2048-4096 bit, EC root sets 1-4 keys x every signing root "
                   "x +-ISK): the independent ROM model accepts the real export and every asymmetric obligation verifies with `cryptography`; non-trivial = distinct (row, options, payload)")
